@@ -1,7 +1,10 @@
-(** C17 - Datamodel evolution is equivalent to a fresh deployment (server side of the schema
-    step; the equivalence with a fresh deployment is decided by the differential runs of the
-    harness). *)
+(** C17 - Datamodel evolution is equivalent to a fresh deployment: the server side of the schema
+    step, and the client side of a change of the client datamodel (types newly mapped, attributes
+    mapped, unmapped or mapped to another remote attribute) on a healthy client; the remaining
+    combinations (failures, queue entries, primary-key moves, types leaving the client datamodel)
+    are decided by the differential runs of the harness. *)
 From Hermes Require Import Model.Objects Model.Server Model.Evolution Proofs.Server Proofs.Evolution.
+From Hermes Require Import Model.Client Model.ClientEvo Proofs.ClientHealthy Proofs.ClientEvo.
 
 (** ahead of the new schema the server sends exactly one 'removed' for every published object
     of a dropped type, and nothing else *)
@@ -23,3 +26,52 @@ Print Assumptions C17_schema_step_replay.
 Theorem C17_nothing_dropped_nothing_sent : forall c cache, schema_step c [] cache = [].
 Proof. exact schema_step_nothing_dropped. Qed.
 Print Assumptions C17_nothing_dropped_nothing_sent.
+
+(** ** client side: change of the client datamodel *)
+(** A client whose handlers succeed, with an empty error queue and no trashbin, restarted under a
+    new mapping [c] that keeps every local type: after the datamodel update its local data and
+    their expected-state copy are the projection of the remote cache under the NEW mapping,
+    whatever they were; the remote caches, the queue and the exception flag are untouched. *)
+Theorem C17_client_remap_healthy : forall c outcome,
+  (forall n, outcome n = HOk) -> cc_retention c = None ->
+  forall (r l : world) n cs stp prt rty fr,
+  NoDup (map ct_id (cc_types c)) ->
+  (forall i, is_Some (l !! i) -> is_Some (find_ctype c (fst i))) ->
+  exists n' cs' stp' prt',
+    remap c outcome (hstate r l n cs stp prt rty fr) = hstate r (project c r) n' cs' stp' prt' rty fr.
+Proof. exact remap_healthy. Qed.
+Print Assumptions C17_client_remap_healthy.
+
+(** evolved = fresh: consume a bus under [c_old], restart under [c_new], update - or consume the
+    same bus under [c_new] from scratch: same remote cache, same local data, nothing queued *)
+Theorem C17_evolved_client_equals_fresh : forall (c_old c_new : ccfg) outcome evs next,
+  (forall n, outcome n = HOk) ->
+  cc_retention c_old = None -> cc_retention c_new = None ->
+  wf_ccfg c_old -> wf_ccfg c_new -> NoDup (map ct_id (cc_types c_new)) ->
+  (forall t, is_Some (find_ctype c_old t) -> is_Some (find_ctype c_new t)) ->
+  consistent_stream c_old ∅ evs -> consistent_stream c_new ∅ evs ->
+  let st0 := hstate ∅ ∅ 0 [] 0 false false false in
+  let evolved := remap c_new outcome (fst (process_events c_old outcome st0 next evs)) in
+  let fresh := fst (process_events c_new outcome st0 next evs) in
+  r_live evolved = r_live fresh /\ l_live evolved = l_live fresh /\ lc_live evolved = lc_live fresh /\
+  l_live evolved = project c_new (rreplay ∅ evs) /\ queue evolved = [] /\ exc evolved = false.
+Proof. exact evolved_equals_fresh. Qed.
+Print Assumptions C17_evolved_client_equals_fresh.
+
+(** non-vacuity: one type with two remote attributes (1, 2) and its key (3); the old mapping has
+    local 10 <- 1 (and the key 12 <- 3), the new one 11 <- 2: the update removes 10 and adds 11 on
+    the first object and adds the second object of a newly mapped type *)
+Definition ex_old : ccfg := CCfg [CType 1 [(10%N, 1%N); (12%N, 3%N)] [] 99] None FKDisabled RDisabled 99 [1%N; 2%N].
+Definition ex_new : ccfg := CCfg [CType 1 [(11%N, 2%N); (12%N, 3%N)] [] 99; CType 2 [(12%N, 3%N)] [] 99] None FKDisabled RDisabled 99 [1%N; 2%N].
+Definition ex_bus : list (Z * cev) :=
+  [(3%Z, CEv 1 7 (KAdded {[ 1%N := VInt 5; 2%N := VInt 6; 3%N := VInt 7 ]}) 0 0 false);
+   (4%Z, CEv 2 8 (KAdded {[ 3%N := VInt 8 ]}) 0 0 false)].
+Definition wl (w : world) := map (fun p => (fst p, map_to_list (snd p))) (map_to_list w).
+Example C17_client_remap_example :
+  let st0 := hstate ∅ ∅ 0 [] 0 false false false in
+  let evolved := remap ex_new (fun _ => HOk) (fst (process_events ex_old (fun _ => HOk) st0 3 ex_bus)) in
+  let fresh := fst (process_events ex_new (fun _ => HOk) st0 3 ex_bus) in
+  wl (l_live evolved) = wl (l_live fresh) /\
+  map (fun cl => (cl_kind cl, cl_t cl, cl_k cl)) (calls evolved) =
+    [(HAdded, 1%N, 7%Z); (HModified, 1%N, 7%Z); (HAdded, 2%N, 8%Z)].
+Proof. vm_compute. split; reflexivity. Qed.
